@@ -75,7 +75,7 @@ def job_derive(job):
 
 
 DERIVED_INVS = {"C06": ["InvSlice", "InvSliceSlice"], "C16": ["InvConvert"], "C09": ["InvSnapshotsRoundTrip"],
-                "C10": ["InvInteractionsRoundTrip"]}
+                "C10": ["InvInteractionsRoundTrip"], "C11": ["InvJsonRoundTrip"]}
 
 
 def mc_derived(chk, prop, tier):
